@@ -431,6 +431,9 @@ func (c *cg) mapAppendLoop(r *ast.RangeStmt) (string, bool) {
 		return "", false
 	}
 	bind := "fun (kv_ : Pgs.Bytes × Pgs.Bytes) => let " + leanIdent(k.Name) + " := kv_.1; let " + leanIdent(v.Name) + " := kv_.2; "
+	if k.Name == "_" { // the values of a set kept as a map keyed by name: the list itself
+		bind = "fun " + leanIdent(v.Name) + " => "
+	}
 	c.s.locals[k.Name], c.s.locals[v.Name] = true, true
 	switch b := r.Body.List[0].(type) {
 	case *ast.IfStmt:
@@ -470,6 +473,22 @@ func (c *cg) foldAssignLoop(r *ast.RangeStmt) (string, bool) {
 			return "m_", true
 		}
 		switch st := list[0].(type) {
+		case *ast.RangeStmt:
+			// a nested loop over what an element yields, storing into the same map
+			v2, _ := st.Value.(*ast.Ident)
+			if v2 == nil {
+				return "", false
+			}
+			c.s.locals[v2.Name] = true
+			inner, ok := body(st.Body.List)
+			if !ok {
+				return "", false
+			}
+			restT, ok := body(list[1:])
+			if !ok {
+				return "", false
+			}
+			return "(let m_ := List.foldl (fun m_ " + leanIdent(v2.Name) + " => " + inner + ") m_ " + c.expr(st.X) + "; " + restT + ")", true
 		case *ast.AssignStmt:
 			ix, ok := st.Lhs[0].(*ast.IndexExpr)
 			if !ok || len(st.Lhs) != 1 || len(st.Rhs) != 1 || exprText(ix.X) != c.s.mapVar || st.Tok != token.ASSIGN {
@@ -478,6 +497,15 @@ func (c *cg) foldAssignLoop(r *ast.RangeStmt) (string, bool) {
 			restT, ok := body(list[1:])
 			if !ok {
 				return "", false
+			}
+			if av, ok := c.s.calls["assignv"]; ok {
+				// a map keyed by the stored entity's own name: a set of entities
+				val := exprText(st.Rhs[0])
+				key := exprText(ix.Index)
+				if key != val+".Name().String()" && key != val+".File().Name().String()" {
+					return "", false
+				}
+				return "(let m_ := " + av + " m_ " + c.expr(st.Rhs[0]) + "; " + restT + ")", true
 			}
 			return "(let m_ := " + c.s.calls["assign"] + " m_ " + c.expr(ix.Index) + " " + c.expr(st.Rhs[0]) + "; " + restT + ")", true
 		case *ast.IfStmt:
@@ -1252,6 +1280,11 @@ func codeSpecs() []*fnSpec {
 			calls: map[string]string{"updstate:e.populateDependentsCache": "enum_populateDependentsCache dependents getDependents self", "messageSetToSlice": "messageSetToSlice"}},
 		accSpec("message.go", "msg", "m", "Dependents", "msg_Dependents", "m.populateDependentsCache", "msg_populateDependentsCache", "m.dependentsCache", "m.FullyQualifiedName()", "self"),
 		accSpec("message.go", "msg", "m", "Dependencies", "msg_Dependencies", "m.populateDependenciesCache", "msg_populateDependenciesCache", "m.dependenciesCache", "m.FullyQualifiedName()", "self"),
+		// C04: file.go
+		{file: "file.go", recv: "file", name: "TransitiveImports", lean: "file_TransitiveImports", rn: "f", mapVar: "importMap",
+			binders: "(fileDependencies : List Nat) (transitiveImports : Nat → List Nat)", ret: "List Nat",
+			exprs: map[string]string{"f.fileDependencies": "fileDependencies", "fl.TransitiveImports()": "(transitiveImports fl)", "importMap": "importMap", "fl": "fl", "imp": "imp"},
+			calls: map[string]string{"assignv": "setPut"}},
 		// C09
 		{file: "proto.go", rn: "s", recv: "Syntax", name: "SupportsRequiredPrefix", lean: "syntax_SupportsRequiredPrefix", binders: "(s : Pgs.Bytes)", ret: "Bool",
 			exprs: map[string]string{"s": "s", "Proto2": "Pgs.Generated.syntaxProto2"}},
@@ -1883,6 +1916,8 @@ func genCode(repo string) (map[string]string, error) {
 	b.WriteString("def mkPrefixedDebugger (parent : Unit) (prefix_ : Pgs.Bytes) : Pgs.Bytes := prefix_\n")
 	b.WriteString("/-- `fs.MkdirAll(dir, mode)`: directories carry no mode in the model -/\n")
 	b.WriteString("def mkdirAllMode (fs : Pgs.Persist.FS) (d : Pgs.Bytes) (mode : Nat) : Pgs.Persist.FS := fs.mkdirAll d\n")
+	b.WriteString("/-- a Go map used as a set of entities keyed by their own name: storing an entity already present changes nothing -/\n")
+	b.WriteString("def setPut {α : Type} [BEq α] (m : List α) (x : α) : List α := if m.contains x then m else m ++ [x]\n")
 	b.WriteString("/-- plugin_go.CodeGeneratorResponse_File -/\n")
 	b.WriteString("structure RespFile where\n  name : Option Pgs.Bytes\n  insertionPoint : Option Pgs.Bytes\n  content : Option Pgs.Bytes\nderiving DecidableEq\n")
 	b.WriteString("/-- `GetName()`: the empty string when the field is unset -/\n")
